@@ -934,6 +934,8 @@ class Sim:
         # the registry's memoised digest (public unit_system_id, which feeds Unit.__hash__) must describe the
         # table as it is now.  Read through the private attribute so that the check itself fills no memo.
         used = w.handle(op, node)
+        if k == "define_unit" and node.kind == "default" and not op.get("explicit_registry"):
+            used = node.handles[0]  # define_unit without registry= goes to default_unit_registry itself
         for h in node.handles:
             sid = getattr(h, "_unit_system_id", None)
             if sid is not None and sid != table_digest(h.lut):
